@@ -739,6 +739,8 @@ def _both(block):
 
 SOURCE_YAML = _both("""    - operation: parameter_decl
       name: tp
+    - operation: parameter_decl
+      name: ep
     - operation: object_call
       name: req.get
       tag: ["%target"]
@@ -753,6 +755,148 @@ PROP_YAML = _both("""  - operation: assign_stmt
     dst:
       - [\\%target]
 """)
+
+
+def gen_chain_project(rng, k=None):
+    """Python project in which 3-6 entry functions SHARE helper chains of depth 2-3 (entry_i -> helper -> [mid ->] leaf).
+    Variant A: the source is the entry's parameter `ep`, the sink call is in the leaf; variant B: the source
+    (`req.get()`) is in the leaf, its value is returned up the chain and the sink call is in the entry.  So every entry
+    has one flow of its own that exists only if the top-down analysis descends the shared chain *for that entry*.
+    proj["chain"] = {"entries": [names], "expected": {name: [src_rel, src_line, sink_rel, sink_line]}}"""
+    k = k or rng.randint(3, 6)
+    sizes = [3, k - 3] if k >= 6 and rng.random() < 0.6 else [k]
+    rels = ["chain.py"] if len(sizes) == 1 or rng.random() < 0.5 else ["chain.py", "svc/handlers.py"]
+    proj = {"files": {}, "funcs": {}, "toplevel": {}, "chain": {"entries": [], "expected": {}}}
+    texts = {r: [] for r in rels}
+    for r in rels:
+        proj["funcs"][r] = []
+        proj["toplevel"][r] = False
+    n = 0
+    for g, size in enumerate(sizes):
+        rel = rels[g % len(rels)]
+        lines, funcs = texts[rel], proj["funcs"][rel]
+
+        def emit(t):
+            lines.append(t)
+            return len(lines)
+        variant = rng.choice("AB")
+        depth3 = rng.random() < 0.5
+        leaf, mid, helper = f"leaf_{g}", f"mid_{g}", f"helper_{g}"
+        par = (lambda x: x) if variant == "A" else (lambda x: "")
+        f = {"name": leaf, "kind": "func", "calls": [], "own": False, "sink": None}
+        f["lines"] = [emit(f"def {leaf}({par('lp')}):")]
+        if variant == "A":
+            f["sink"] = emit("    sink(lp)")
+            emit("    return 1")
+        else:
+            leaf_src = emit("    v = req.get()")
+            emit("    return v")
+        emit("")
+        funcs.append(f)
+        below = leaf
+        if depth3:
+            f = {"name": mid, "kind": "func", "calls": [leaf], "own": False, "sink": None}
+            f["lines"] = [emit(f"def {mid}({par('mp')}):")]
+            emit(f"    m = {leaf}({par('mp')})")
+            emit("    return m")
+            emit("")
+            funcs.append(f)
+            below = mid
+        f = {"name": helper, "kind": "func", "calls": [below], "own": False, "sink": None}
+        f["lines"] = [emit(f"def {helper}({par('hp')}):")]
+        emit(f"    w = {below}({par('hp')})")
+        emit("    return w")
+        emit("")
+        funcs.append(f)
+        for _ in range(size):
+            name = f"entry_{n}"
+            n += 1
+            callee = below if depth3 and rng.random() < 0.25 else helper
+            f = {"name": name, "kind": "func", "calls": [callee], "own": False, "sink": None}
+            dl = emit(f"def {name}({par('ep')}):")
+            f["lines"] = [dl]
+            emit(f"    x = {callee}({par('ep')})")
+            if variant == "A":
+                exp = [rel, dl, rel, next(q["sink"] for q in funcs if q["name"] == leaf)]
+            else:
+                f["sink"] = emit("    sink(x)")
+                exp = [rel, leaf_src, rel, f["sink"]]
+            emit("    return 2")
+            emit("")
+            funcs.append(f)
+            proj["chain"]["entries"].append(name)
+            proj["chain"]["expected"][name] = exp
+    for r in rels:
+        proj["files"][r] = "\n".join(texts[r]) + "\n"
+    return proj
+
+
+def chain_ruleset(rng, entries, multi):
+    if multi and rng.random() < 0.5:
+        rules = [{"method_list": [e]} for e in entries]
+    else:
+        rules = [{"lang": "python", "method_list": list(entries)}]
+    return {"family": "chain_multi" if multi else "chain_single", "files": [["entry.yaml", rules]]}
+
+
+def flow_set(obs):
+    out = set()
+    for fl in obs.get("flows", []):
+        a = re.search(r"lian_workspace/src/proj/(.*)$", fl["source_file_path"] or "")
+        b = re.search(r"lian_workspace/src/proj/(.*)$", fl["sink_file_path"] or "")
+        out.add((a.group(1) if a else fl["source_file_path"], fl["source_line"],
+                 b.group(1) if b else fl["sink_file_path"], fl["sink_line"]))
+    return out
+
+
+def union_verdict(entries, multi_flows, single_flows):
+    """metamorphic oracle (needs no model): the flows of one run with entries {e1..ek} are exactly the union of the
+    flows of the k runs with one entry each — selected entries are analysed independently of each other"""
+    union = set()
+    for e in entries:
+        union |= single_flows[e]
+    if multi_flows == union:
+        return []
+    return [f"per-entry independence broken: the run with entries {list(entries)} reports {len(multi_flows)} flows, the union of the "
+            f"{len(entries)} single-entry runs has {len(union)}; missing in the joint run {sorted(union - multi_flows)}, "
+            f"extra in the joint run {sorted(multi_flows - union)} (flow = [source file, source line, sink file, sink line])"]
+
+
+def shrink_union(payload, single_flows, root, req, budget=8):
+    """drop entries from the joint run while the union oracle still fails (single-entry results are reused)"""
+    entries = list(payload["entries"])
+    why = None
+    changed = True
+    rng = __import__("random").Random(0)
+    while changed and budget > 0 and len(entries) > 2:
+        changed = False
+        for e in list(entries):
+            if budget <= 0:
+                break
+            budget -= 1
+            rest = [x for x in entries if x != e]
+            job = {"proj": payload["proj"], "ruleset": chain_ruleset(rng, rest, True), "dir": os.path.join(root, "shrinkunion")}
+            o = full_run(job)
+            if "error" in o:
+                continue
+            w = union_verdict(rest, flow_set(o), single_flows)
+            if w:
+                entries, why, changed = rest, w, True
+                break
+    return entries, why
+
+
+def replay_union(rp, root, req):
+    rng = __import__("random").Random(0)
+    entries = rp["entries"]
+    jobs = [{"proj": rp["proj"], "ruleset": chain_ruleset(rng, entries, True), "dir": os.path.join(root, "u_multi")}]
+    for i, e in enumerate(entries):
+        jobs.append({"proj": rp["proj"], "ruleset": chain_ruleset(rng, [e], False), "dir": os.path.join(root, f"u_{i}")})
+    obs = run_jobs(jobs)
+    errs = [o["error"] for o in obs if "error" in o]
+    if errs:
+        return ["lian run failed: " + errs[0]], obs
+    return union_verdict(entries, flow_set(obs[0]), {e: flow_set(o) for e, o in zip(entries, obs[1:])}), obs
 
 
 def gen_ruleset(rng, proj, ids=None):
@@ -1004,9 +1148,13 @@ def full_verdict(job, obs, req):
         f = next(x for x in proj["funcs"][k[0]] if x["name"] == k[1])
         todo += [(k[0], c) for c in f["calls"]]
     sink_owner = {}
+    no_own = set()
     for rel, fs in proj["funcs"].items():
         for f in fs:
-            sink_owner[(rel, f["sink"])] = (rel, f["name"])
+            if f.get("sink") is not None:
+                sink_owner[(rel, f["sink"])] = (rel, f["name"])
+            if not f.get("own", True):
+                no_own.add((rel, f["name"]))       # its flow (if any) depends on a call chain: judged by the union oracle
     seen = set()
     for fl in obs["flows"]:
         m = re.search(r"lian_workspace/src/proj/(.*)$", fl["sink_file_path"] or "")
@@ -1020,12 +1168,18 @@ def full_verdict(job, obs, req):
         seen.add(owner)
         if owner not in reach:
             why.append(f"taint flow reported in {owner[0]}:{owner[1]} (sink line {fl['sink_line']}), which is not reachable from any selected entry")
-    own = {key_of[e] for e in expect if e in key_of}
+    own = {key_of[e] for e in expect if e in key_of} - no_own
     for k in sorted(own - seen):
         (why if k[0].endswith(".py") else soft).append(
             f"selected entry {k[0]}:{k[1]} contains a source-to-sink flow that the taint phase did not report")
-    for k in sorted(reach - own - seen):
+    for k in sorted(reach - own - seen - no_own):
         soft.append(f"reachable (not itself an entry) {k[0]}:{k[1]}: its flow was not reported")
+    if "chain" in proj:        # expected chain flows of the selected entries (soft: depends on C07/C10 depth)
+        fs_ = flow_set(obs)
+        sel_names = {key_of[e][1] for e in expect if e in key_of}
+        for e in proj["chain"]["entries"]:
+            if e in sel_names and tuple(proj["chain"]["expected"][e]) not in fs_:
+                soft.append(f"chain flow of selected entry {e} {proj['chain']['expected'][e]} was not reported")
     stats = {"selected": len(expect), "methods": sum(len(u["methods"]) for u in units), "flows": len(obs["flows"]),
              "reach": len(reach), "own": len(own)}
     return why, soft, stats
@@ -1212,6 +1366,13 @@ def run(ctx):
         for pi, pr in enumerate(projs):
             for _ in range(per_proj):
                 jobs.append({"proj": pr, "ruleset": gen_ruleset(ctx.rng, pr), "pi": pi})
+        n_chain = 1 if tier == "quick" else 16
+        chains = [gen_chain_project(ctx.rng, k=4 if tier == "quick" else None) for _ in range(n_chain)]
+        for ui, cp in enumerate(chains):
+            ents = cp["chain"]["entries"]
+            jobs.append({"proj": cp, "ruleset": chain_ruleset(ctx.rng, ents, True), "union": ui, "entry": None})
+            for e in ents:
+                jobs.append({"proj": cp, "ruleset": chain_ruleset(ctx.rng, [e], False), "union": ui, "entry": e})
         for i, j in enumerate(jobs):
             j["dir"] = os.path.join(root, f"full{i}")
         obs1 = run_jobs(jobs)
@@ -1257,6 +1418,27 @@ def run(ctx):
             seen.add(fkey)
             full_reqs.append(full_model_check(j, o, req))
             full_obs.append((j, o))
+        # ---- metamorphic union oracle on the chain projects
+        ustats = {"projects": len(chains), "entries": 0, "joint_flows": 0, "chain_flows_expected": 0, "chain_flows_seen": 0,
+                  "violations": 0}
+        for ui, cp in enumerate(chains):
+            grp = [(j, o) for j, o in zip(jobs, obs1) if j.get("union") == ui]
+            if any("error" in o for _j, o in grp):
+                continue                      # already reported by full_verdict
+            multi = next(o for j, o in grp if j["entry"] is None)
+            singles = {j["entry"]: flow_set(o) for j, o in grp if j["entry"] is not None}
+            ents = cp["chain"]["entries"]
+            mf = flow_set(multi)
+            ustats["entries"] += len(ents)
+            ustats["joint_flows"] += len(mf)
+            ustats["chain_flows_expected"] += len(ents)
+            ustats["chain_flows_seen"] += sum(1 for e in ents if tuple(cp["chain"]["expected"][e]) in mf)
+            w = union_verdict(ents, mf, singles)
+            if w:
+                ustats["violations"] += 1
+                failing.append(("union", {"proj": cp, "entries": ents,
+                                          "single_flows": {e: sorted(v) for e, v in singles.items()}}, w))
+        ctx.cov["union_oracle"] = ustats
         full_replies = model_batch(full_reqs) if full_reqs else None
         if full_replies:
             for (j, o), rep in zip(full_obs, full_replies):
@@ -1279,7 +1461,7 @@ def run(ctx):
             "None/NaN names) through the real P1.run loop; full runs: generated Python projects (2-6 files, nested dirs, classes, "
             "nested functions, with/without top-level code, cookiecutter dir, empty file) x rule families "
             "(empty, no file, initialiser only, names, lang, lang miss, unit_name exact/substring, unit_path, overlap, attrs, all, "
-            "args, multi-file with decoys, string method_list, workspace prefix; second wave: method_id / unit_id from a first run); "
+            "args, multi-file with decoys, string method_list, workspace prefix; second wave: method_id / unit_id from a first run); chain projects (3-6 entries sharing helper chains of depth 2-3, source in the entry and sink in the leaf or the reverse) run jointly and once per entry for the union oracle; "
             "non-trivial = distinct input whose selected set is a non-empty proper subset of the method scopes")
         ctx.cov["exhaustive"] = False
         ctx.cov["correspondence"] = {"differences": len(corr_breaks)}
@@ -1307,6 +1489,17 @@ def run(ctx):
                     ctx.known(fid, "; ".join(why)[:300])
                 else:
                     ctx.violation({"kind": "inproc", "what": "; ".join(why), "case": jsonable(small), "real": o, "oracle": orc,
+                                   "failing_inputs_in_run": len(failing)})
+            elif kind == "union":
+                singles = {e: {tuple(x) for x in v} for e, v in payload["single_flows"].items()}
+                ents, w2 = shrink_union(payload, singles, root, req)
+                why = w2 or why
+                fid = match_known(ctx, kind, payload, why)
+                if fid:
+                    ctx.known(fid, "; ".join(why)[:300])
+                else:
+                    ctx.violation({"kind": "union", "what": "; ".join(why)[:2000], "proj": payload["proj"], "entries": ents,
+                                   "single_flows": {e: sorted(singles[e]) for e in ents},
                                    "failing_inputs_in_run": len(failing)})
             elif kind == "default":
                 sdir = os.path.join(common.REPO, "default_settings")
@@ -1359,6 +1552,10 @@ def replay(rp):
             o = real_inproc(c, os.path.join(root, "rp"), settings_dir=sdir)
             why = inproc_verdict(c, o, oracle_case(c, walk, req))
             print(json.dumps({"selected": o.get("selected"), "violates": bool(why), "why": why}, default=str))
+            return 1 if why else 0
+        if rp.get("kind") == "union":
+            why, obs = replay_union(rp, root, req)
+            print(json.dumps({"joint_flows": sorted(flow_set(obs[0])), "violates": bool(why), "why": why}, default=str))
             return 1 if why else 0
         if rp.get("kind") == "full":
             job = {"proj": rp["proj"], "ruleset": rp["ruleset"], "dir": os.path.join(root, "rp")}
